@@ -1813,15 +1813,20 @@ func readNextCommand(packet []byte, argsIn [][]byte, msg *Message, wr io.Writer)
 	if packet[0] == 'G' || packet[0] == 'P' || packet[0] == 'O' {
 		// could be an HTTP request
 		var line []byte
+		var bareLF bool
 		for i := 1; i < len(packet); i++ {
 			if packet[i] == '\n' {
 				if packet[i-1] == '\r' {
 					line = packet[:i+1]
-					break
+				} else {
+					// a first line ended by a bare LF is an inline command
+					// (`echo PING | nc`), not an HTTP request line
+					bareLF = true
 				}
+				break
 			}
 		}
-		if len(line) == 0 {
+		if len(line) == 0 && !bareLF {
 			return false, argsIn[:0], redcon.Redis, packet, nil
 		}
 		if len(line) > 11 && string(line[len(line)-11:len(line)-5]) == " HTTP/" {
